@@ -5,9 +5,11 @@ pub mod c04;
 pub mod c06c10;
 pub mod c09;
 pub mod c12;
+pub mod c13conc;
 pub mod c14;
 pub mod c15;
 pub mod c16;
+pub mod c17types;
 pub mod c18;
 pub mod c19;
 pub mod c20;
